@@ -57,6 +57,10 @@ def find_sub(mod, name):
             return s
     raise KeyError(f"{mod.ID} has no sub-check {name!r}")
 
+class BudgetStop(BaseException):
+    """Raised inside a Hypothesis test to end generation when the soft wall-clock budget of a shard is used up
+    (not an Exception, so Hypothesis neither records it as a failure nor tries to shrink it)."""
+
 class Stats:
     def __init__(self):
         self.evals = 0
@@ -175,8 +179,7 @@ def run_shard(prop_id, sub_name, tier, seed, n, shard, nshards, budget_s, shrink
             nonlocal budget_hit
             if time.time() - t0 > budget_s and stats.failure is None:
                 budget_hit = True
-                stats.skipped += 1
-                return
+                raise BudgetStop()
             execute_case(sub, case, known, stats)
 
         test = given(strat)(body)
@@ -186,6 +189,8 @@ def run_shard(prop_id, sub_name, tier, seed, n, shard, nshards, budget_s, shrink
         test = hypothesis.seed(seed)(test)
         try:
             test()
+        except BudgetStop:
+            pass
         except BaseException as e:
             if isinstance(e, (KeyboardInterrupt, SystemExit, MemoryError)):
                 raise
